@@ -37,12 +37,14 @@ pub fn h02_tables<const K: usize>(kind: Kind, lens: [usize; K]) {
         // in increasing order and pairwise disjoint; checked for a symbolic pair of samples
         let i: usize = kani::any();
         let j: usize = kani::any();
-        kani::assume(i < K && j < K && i < j);
-        assert!(m.off[i] + m.size[i] as u64 <= total, "C02 every chunk lies inside the media data written");
-        assert!(m.off[j] + m.size[j] as u64 <= total, "C02 every chunk lies inside the media data written");
-        assert!(m.off[i] + m.size[i] as u64 <= m.off[j], "C02 samples/chunks are disjoint and in increasing order");
-        kani::cover!(K < 2 || m.chunk[i] != m.chunk[j], "(opt) two samples in different chunks");
-        kani::cover!(K < 2 || m.chunk[i] == m.chunk[j], "(opt) two samples in the same chunk");
+        if i < K && j < K {
+            assert!(m.off[i] + m.size[i] as u64 <= total, "C02 every chunk lies inside the media data written");
+            if i < j {
+                assert!(m.off[i] + m.size[i] as u64 <= m.off[j], "C02 samples/chunks are disjoint and in increasing order");
+                kani::cover!(m.chunk[i] != m.chunk[j], "(opt) two samples in different chunks");
+                kani::cover!(m.chunk[i] == m.chunk[j], "(opt) two samples in the same chunk");
+            }
+        }
     }
     let mut sum: u64 = 0;
     let mut i = 0;
@@ -132,7 +134,7 @@ fn q_h02dur__k1() {
 }
 #[kani::proof]
 #[kani::unwind(5)]
-fn q_h02dur__k2() {
+fn t_h02dur__k2() {
     h02_dur::<2>()
 }
 #[kani::proof]
